@@ -437,7 +437,7 @@ OPS = {
     "Num::neg": ["num.neg"], "Num::set_copy": ["num.add"], "Num::set_move": ["num.add"],
     "op_add_Num": ["num.add"], "op_mul_Num": ["num.mul"], "op_neg_Num": ["num.neg"],
     "op_add_assign_Num": ["num.add_assign", "num.add"], "op_mul_assign_Num": ["num.mul_assign", "num.mul"],
-    "num_partial_cmp": ["num.cmp"],
+    "num_partial_cmp": ["num.cmp"], "fmt_display_Num": ["num.show", "num.roundtrip"], "fmt_display_BigNum": ["big.show"],
     "PartialOrd_for_Num::partial_cmp": ["num.cmp"], "PartialEq_for_Num::eq": ["num.eq"],
     "calc": ["area.calc"], "Area::new": ["area.calc"],
     "opt_execute": ["opt.cmp"], "calc_on_state_opt": ["opt.cmp"],
